@@ -18,12 +18,14 @@ typedef pl::Tracked<4, 16, true,  false, false, false>      Big;        // 24 by
 typedef pl::Tracked<5, 16, true,  true,  false, false>      BigTC;      // 24 bytes, copy may throw      -> heap
 typedef pl::Tracked<6, 0,  true,  true,  false, false>      SmallTC;    //  8 bytes, copy may throw      -> in place
 typedef pl::Tracked<7, 8,  true,  false, false, false, 16>  Aligned16;  // 16 bytes, alignas(16)         -> heap
+typedef pl::Tracked<9, 0,  false, false, true,  false, 8, true> SmallNCTM;  //  8 bytes, noexcept copy but throwing move -> heap (the decision is about the MOVE constructor)
+static_assert(std::is_nothrow_copy_constructible<SmallNCTM>::value && !std::is_nothrow_move_constructible<SmallNCTM>::value, "payload shape");
 static_assert(sizeof(Small) == 8 && sizeof(TwoWords) == 16 && sizeof(Big) == 24 && sizeof(Aligned16) == 16, "payload sizes");
 
-static const int NTYPES = 9;   // 0 = empty, 1..7 tracked, 8 = int
+static const int NTYPES = 10;   // 0 = empty, 1..7 and 9 tracked, 8 = int
 static const char* tname(int t)
 {
-    static const char* n[] = {"empty", "Small", "TwoWords", "SmallTM", "Big", "BigTC", "SmallTC", "Aligned16", "int"};
+    static const char* n[] = {"empty", "Small", "TwoWords", "SmallTM", "Big", "BigTC", "SmallTC", "Aligned16", "int", "SmallNCTM"};
     return n[t];
 }
 
@@ -73,6 +75,7 @@ struct World
         if (x.type() == typeid(SmallTC)) return 6;
         if (x.type() == typeid(Aligned16)) return 7;
         if (x.type() == typeid(int)) return 8;
+        if (x.type() == typeid(SmallNCTM)) return 9;
         return -1;
     }
     template <class T> int observed_value_t(int i) const { const T* p = xtl::any_cast<T>(&a(i)); return p ? get_val(*p) : -999; }
@@ -88,6 +91,7 @@ struct World
         case 6: return observed_value_t<SmallTC>(i);
         case 7: return observed_value_t<Aligned16>(i);
         case 8: return observed_value_t<int>(i);
+        case 9: return observed_value_t<SmallNCTM>(i);
         default: return 0;
         }
     }
@@ -180,7 +184,7 @@ struct World
                 if (ot != m[i].type) { e.add("type", who + "type() reports " + (ot < 0 ? "an unknown type" : tname(ot)) + " model " + tname(m[i].type)); continue; }
             }
             check_casts<Small>(i, e); check_casts<TwoWords>(i, e); check_casts<SmallTM>(i, e); check_casts<Big>(i, e);
-            check_casts<BigTC>(i, e); check_casts<SmallTC>(i, e); check_casts<Aligned16>(i, e); check_casts<int>(i, e);
+            check_casts<BigTC>(i, e); check_casts<SmallTC>(i, e); check_casts<Aligned16>(i, e); check_casts<int>(i, e); check_casts<SmallNCTM>(i, e);
             // a type that is never stored
             if (xtl::any_cast<long>(&a(i)) != nullptr || xtl::any_cast<unsigned>(&a(i)) != nullptr) e.add("any_cast-pointer", who + "any_cast to a never stored type is non-null");
             // second opinion (fault-free histories): std::any holds the same alternative and value
@@ -244,7 +248,7 @@ void type_ops(HX& hx, const std::vector<int>& values, int nobj)
 static void build_ops(HX& hx, int nobj, const std::vector<int>& values)
 {
     type_ops<Small>(hx, values, nobj); type_ops<TwoWords>(hx, values, nobj); type_ops<SmallTM>(hx, values, nobj); type_ops<Big>(hx, values, nobj);
-    type_ops<BigTC>(hx, values, nobj); type_ops<SmallTC>(hx, values, nobj); type_ops<Aligned16>(hx, values, nobj); type_ops<int>(hx, values, nobj);
+    type_ops<BigTC>(hx, values, nobj); type_ops<SmallTC>(hx, values, nobj); type_ops<Aligned16>(hx, values, nobj); type_ops<int>(hx, values, nobj); type_ops<SmallNCTM>(hx, values, nobj);
     for (int i = 0; i < nobj; ++i)
     {
         const std::string I = str(i);
